@@ -215,8 +215,14 @@ def spec_lcd():
 
 
 def specs(tier='quick'):
-    return [spec_lcd(), spec_reads_leaf(False), spec_reads_leaf(True), spec_reads_conditional(), spec_reads_loop(),
-            spec_reads_while(), spec_writes_leaf()]
+    own = [spec_lcd(), spec_reads_leaf(False), spec_reads_leaf(True), spec_reads_conditional(), spec_reads_loop(),
+           spec_reads_while(), spec_writes_leaf()]
+    # both queries are computed from the attached uses/defines sets: the C26 contracts of the transfer rules are
+    # obligations of this property as well (a rule that loses a read loses a loop-carried dependency)
+    inherited = B.specs(tier)
+    for sp in inherited:
+        sp.prop = PROP
+    return own + inherited
 
 
 def lemma_proofs():
